@@ -379,7 +379,7 @@ def run(ctx):
     if f28:
         qe = ctx.harness("qv_equal")
         if qe:
-            rc, out = ctx.run_bin(qe, [sexpr.quote(s) for _, s, _ in f28], args=["--run", "2"], timeout=600)
+            rc, out = ctx.run_sharded(qe, [sexpr.quote(s) for _, s, _ in f28], args=["--run", "2"], shards=8, timeout=900)
             for (fn, s, e), o in zip(f28, out):
                 if o.strip() != e:
                     f28_bad += 1
